@@ -129,7 +129,9 @@ def prop_value(draw, ptype=None):
                                       'str', 'bool', 'ts']))
     if ptype in INT_RANGES:
         lo, hi = INT_RANGES[ptype]
-        v = draw(st.one_of(st.sampled_from([lo, hi, 0, 1, hi - 1]), st.integers(lo, hi)))
+        special = [x for x in (lo, hi, 0, 1, hi - 1, 2 ** 31 - 1, 2 ** 31, -2 ** 31, -2 ** 31 - 1, 2 ** 32, 2 ** 63 - 1,
+                               2 ** 63, 2 ** 63 + 1) if lo <= x <= hi]
+        v = draw(st.one_of(st.sampled_from(special), st.integers(lo, hi)))
     elif ptype == 'f32':
         v = draw(st.one_of(st.sampled_from(_SPECIALS['f32']), st.binary(min_size=4, max_size=4)))
     elif ptype == 'f64':
